@@ -89,6 +89,7 @@ def run(rep, tier, seed):
     q = tier == "quick"
     mr = 2000 if q else None
     configs = [
+        dict(name="rev_two_independents", maxinstr=2, maxhist=2, ops="OpsTwo", points="PtsTwo", seeds="SeedsB", prefix="two", NI=2, max_replay=mr),
         dict(name="rev_A1", maxinstr=3, maxhist=2, ops="OpsA1", points="PtsD2", seeds="SeedsB", max_replay=mr),
         dict(name="rev_A2", maxinstr=3, maxhist=2, ops="OpsA2", points="PtsD2", seeds="SeedsB", max_replay=mr),
         dict(name="rev_A3", maxinstr=3, maxhist=2, ops="OpsA3", points="PtsD2", seeds="SeedsB", max_replay=mr),
